@@ -21,4 +21,10 @@ CHECKS = [
         "text": "Theorems: splitting k++'='++v gives (k,v) for every value (empty, several '='); for every host environment the map a runtime sees has each name once and under every name exactly the host's value (absent iff not a variable; entries without '=' are no variables and do not crash); a write/delete in runtime i changes no other runtime's map and never the host list, for every history. Tied to the code by running the probe in a child process with a generated environment and comparing Object.entries(process.env) of 1-3 runtimes and os.Environ() afterwards with the model.",
         "note": "Trusted: Lean kernel, the harness, os.Environ and goja's Go-map wrapper. Environments are sampled, not enumerated.",
     },
+    {
+        "property_id": "C12",
+        "technique": "Lean 4 proof (in-place compaction/set loops refined to list operations by loop invariants; percent-encoding round trip with a 256-entry table fact closed by decide over the regenerated table) + differential correspondence of code-shaped model, list-level specification and implementation",
+        "text": "Theorems for every list and every byte string: delete (all three forms) leaves exactly List.filter of the WHATWG condition; unescape(escape s) = s over the escape table re-extracted from url/escape.go, which is proved to escape '%', '+', '&', '=', '?'; parser clauses ('+', valid/malformed %XX, empty pairs, one leading '?'); getters and live iterators are the list operations. set/sort/parse(serialize l) = l are proved in GN/Url/ParamsLemmas2.lean when present (see evidence 'theorems'), and are in any case compared on every generated history against the WHATWG list-level specification by the driver. The tie to the code: regenerated tables + running the same operation histories on the real URLSearchParams.",
+        "note": "Trusted: Lean kernel, verif-extract (tables), the harness; goja string conversion and sort.Stable modelled. Histories are sampled.",
+    },
 ]
